@@ -43,7 +43,7 @@ static unsigned long gen_ctr[MAXU];
 static int sec_ctr;
 static int sync_active;		/* number of synchronize_rcu calls in flight */
 struct tstate { int depth; int online; int registered; unsigned long maxb[MAXU]; int secid[8]; int in_lib; void *bp_slot; int sig_depth; };
-static struct tstate ts[64];
+static struct tstate ts[128];
 static int tids[MAXTH];
 
 static NS struct tstate *me_ts(void) { return &ts[ds_self()]; }
@@ -70,7 +70,7 @@ static NS void check_a(int u, unsigned long a)
 		ds_fail("litmus: reader E%d saw post-grace-period store B[%d]=%lu but pre-grace-period store A[%d]=%lu inside one read-side critical section", ds_self(), u, t->maxb[u], u, a);
 }
 #include <signal.h>
-static sigset_t mask_before[64][4];
+static sigset_t mask_before[128][4];
 /* every library call must leave the caller's signal mask as it found it (bp blocks signals around registration and grace periods and restores them) */
 static NS void lib_enter(void)
 {
